@@ -413,7 +413,10 @@ class PathRunner(object):
         okk, _d = R.sig_equal(sub_sig(res.sig, self.labels),
                               R.load_sig(ent['sig']))
         if not okk:
-            return 'gate', None, None, spec2, [], res
+            # the simulated signature is not the documented effect of the
+            # mutation (C01 reports that); the path stays in: stepwise and
+            # batched runs are compared with each other as usual
+            self.stats['skipped_gate'] += 1
         if O.schema_dump('default', skip=SKIP_TABLES) != ent['schema']:
             return 'c01', None, None, spec2, [], res
         return ('ok', B.snapshot('default'), res.sig.serialize(), spec2,
@@ -697,9 +700,6 @@ class PathRunner(object):
                 if st == 'failed':
                     self.stats['skipped_w1_failed'] += 1
                     continue
-                if st == 'gate':
-                    self.stats['skipped_gate'] += 1
-                    continue
                 if st == 'c01':
                     self.stats['skipped_w1_not_fresh'] += 1
                     continue
@@ -897,7 +897,8 @@ def run(tier, seed, confirm=True, prop='C03'):
         'executions_of_whole_paths': total['ways_run'],
         'minimisations': total['minimisations'],
         'skipped_w1_failed': total['skipped_w1_failed'],
-        'skipped_reference_disagrees': total['skipped_gate'],
+        'steps_where_simulated_signature_differs_from_reference':
+            total['skipped_gate'],
         'skipped_w1_differs_from_fresh_schema':
             total['skipped_w1_not_fresh'],
         'max_path_length': total['max_len'],
